@@ -294,6 +294,12 @@ func (e editor) list(from *Selection, to *Selection, m *meta.List, new bool, str
 		toRequest.From = fromChild
 		toRequest.Key = key
 		p.Key = key
+		for _, k := range key {
+			if k == nil {
+				// a nil value in the key crashes whichever node receives it
+				return fmt.Errorf("%w. entry of list %s without its key", fc.BadRequestError, m.Ident())
+			}
+		}
 		if len(key) > 0 {
 			toRequest.New = false
 			if toChild, _, _, err = to.selectListItem(&toRequest); err != nil {
